@@ -694,6 +694,8 @@ Definition rule_add : fexpr := And (Elem "a") (Elem "b").
 Definition rule_mul : fexpr := And (Elem "a") (Or (And (Pub "shb") (Elem "b")) (Pub "z == f")).
 Definition rule_lshift : fexpr := Or (Elem "a") (Pub "b >= f").
 Definition rule_sum : fexpr := AllOf "x".
+(** np_left_shift: array a shifted by an ARRAY b of public amounts: all of them must be >= f *)
+Definition rule_np_lshift : fexpr := Or (Elem "a") (Pub "np.all(b >= f)").
 Definition rule_in_prod : fexpr := And (AllOf "x") (AllOf "y").
 
 Definition env1 (a : bool) : env :=
@@ -753,6 +755,31 @@ Proof.
   - intros f xs Hs H. rewrite <- flag_rule_sum in H. apply (sound_fsum f xs Hs). exact H.
   - intros p f bit xs ys Hodd Hp Hf Hx Hy Hr H. rewrite <- (flag_rule_in_prod p f bit) in H.
     apply (sound_in_prod p f bit xs ys); assumption.
+Qed.
+
+(** elementwise left shift by public amounts that are ALL >= f yields whole numbers (the public
+    alternative of [rule_np_lshift]; with SOME amount >= f it does not: [1] << [0] stays 1 unit) *)
+Fixpoint shift_each (xs bs : list Z) : list Z :=
+  match xs, bs with x :: xs', b :: bs' => x * 2 ^ b :: shift_each xs' bs' | _, _ => [] end.
+
+Lemma sound_np_lshift : forall f xs bs, 0 <= f -> (forall b, In b bs -> f <= b) ->
+  Forall (fun w => (2 ^ f | w)) (shift_each xs bs).
+Proof.
+  intros f xs. induction xs as [|x xs IH]; intros bs Hf Hb; simpl; [constructor|].
+  destruct bs as [|b bs]; [constructor|].
+  constructor.
+  - apply Z.divide_mul_r. assert (f <= b) by (apply Hb; left; reflexivity).
+    exists (2 ^ (b - f)). rewrite <- Z.pow_add_r by lia. f_equal. lia.
+  - apply IH; [assumption|]. intros b' Hin. apply Hb. right. exact Hin.
+Qed.
+
+Lemma np_lshift_some_refuted : exists f xs bs, (exists b, In b bs /\ f <= b) /\
+  ~ Forall (fun w => (2 ^ f | w)) (shift_each xs bs).
+Proof.
+  exists 16, [1; 1], [16; 0]. split.
+  - exists 16. split; [left; reflexivity | lia].
+  - intros H. inversion H as [|? ? _ H2]; subst. inversion H2 as [|? ? [k Hk] _]; subst.
+    simpl in Hk. lia.
 Qed.
 
 (** Elementwise list operations (vector_add / vector_sub, whose rule in the source is
